@@ -163,6 +163,8 @@ const CALLS: &[&str] = &[
     "nested_same_id_inside_anchor", "nested_stream", "nested_then_missing", "thread_nested_then_missing",
     "ok_plain", "ok_anchors", "fail_syntax_in_anchor", "fail_type_in_anchor_wrapper", "budget", "nested_ok", "nested_anchors", "nested_fails", "nested_missing",
     "iterator_abandoned", "panicking_visitor", "serialize_shared", "missing_field", "unknown_alias_wrapper",
+    // serializer calls of different option flavours over the same words (no cache may be keyed by the text alone)
+    "ser_words_default", "ser_words_yaml12", "ser_words_quote_all", "ser_words_step4_noblock", "ser_fails_midway",
 ];
 
 fn call(name: &str) -> String {
@@ -195,6 +197,38 @@ fn call(name: &str) -> String {
                 b: RcAnchor<String>,
             }
             format!("{:?}", serde_saphyr::to_string(&S { a: RcAnchor(x.clone()), b: RcAnchor(x) }).map_err(|e| e.to_string()))
+        }
+        "ser_words_default" | "ser_words_yaml12" | "ser_words_quote_all" | "ser_words_step4_noblock" => {
+            #[allow(deprecated)]
+            let mut so = serde_saphyr::SerializerOptions::default();
+            #[allow(deprecated)]
+            match name {
+                "ser_words_yaml12" => so.yaml_12 = true,
+                "ser_words_quote_all" => so.quote_all = true,
+                "ser_words_step4_noblock" => {
+                    so.indent_step = 4;
+                    so.prefer_block_scalars = false;
+                }
+                _ => {}
+            }
+            // YAML 1.1 boolean spellings, null-likes, numbers, multi-line text: as keys, values and sequence items
+            let words = ["y", "on", "No", "~", "null", "12", "1e3", "a\nb", "plain", "y"];
+            let m: BTreeMap<String, Vec<String>> = words.iter().map(|w| (w.to_string(), vec![w.to_string(), "z".to_string()])).collect();
+            let a = serde_saphyr::to_string_with_options(&m, so).map_err(|e| e.to_string());
+            let b = serde_saphyr::to_string_with_options(&BTreeMap::from([("y", 2), ("z", 3)]), so).map_err(|e| e.to_string());
+            let c = serde_saphyr::to_string_with_options(&"on", so).map_err(|e| e.to_string());
+            format!("{a:?} {b:?} {c:?}")
+        }
+        "ser_fails_midway" => {
+            // a serialization that fails after it has written anchors and staged layout state
+            #[derive(serde::Serialize)]
+            struct S {
+                a: RcAnchor<String>,
+                bad: BTreeMap<Vec<BTreeMap<String, f64>>, i32>,
+            }
+            let x = Rc::new("v".to_string());
+            let r = serde_saphyr::to_string(&S { a: RcAnchor(x), bad: BTreeMap::new() }).map(|t| t.len()).map_err(|e| e.to_string());
+            format!("{r:?}")
         }
         "missing_field" => format!("{:?}", serde_saphyr::from_str::<TwoFields>("a: 1\n").map_err(|e| fmt_err(&e))),
         _ => format!("{:?}", serde_saphyr::from_str::<Shared>("a: v\nb: *nope\n").map(|s| s.a.0.to_string()).map_err(|e| fmt_err(&e))),
